@@ -4,6 +4,7 @@
      lat     b ms                        StrategyManager.RecordLatency(b, ms)
      attempt id tries result             one connection through lite.Forward: the addresses the
                                          code tried (lb.try events) and "open"/"closed"
+     abort   id tries                    the accepting backend reset connection id right after the handshake
      opened  id                          a connection of a concurrent batch is being forwarded
      close   id                          the client closed connection id and the proxy let go of it
      count   n                           StrategyManager.ActiveConnections() at a quiescent point
@@ -43,6 +44,17 @@ TAttempt == /\ IsEv("attempt")
             /\ rrPrev' = IF Len(Rec.tries) = 1 THEN PosOf(cfg.list, Rec.tries[1]) ELSE 0
             /\ UNCHANGED <<cfg, lat, ctb, cte, cub, cue, ob>>
 
+\* fault: the backend that accepted connection id reset it before anything was forwarded
+\* (lite.Forward gave up while flushing the client's buffered bytes): not an open connection
+TAbort == /\ IsEv("abort")
+          /\ Rec.id \notin DOMAIN open
+          /\ FromList(cfg.list, Rec.tries) /\ AtMostOnce(Rec.tries) /\ Len(Rec.tries) >= 1
+          /\ \A i \in 1..Len(Rec.tries) - 1 : Canon(Rec.tries[i]) \notin cfg.up
+          /\ Canon(Rec.tries[Len(Rec.tries)]) \in cfg.up
+          /\ Order(cfg.strategy, cfg.list, Rec.tries, ActiveOf(open), lat, rrPrev)
+          /\ rrPrev' = IF Len(Rec.tries) = 1 THEN PosOf(cfg.list, Rec.tries[1]) ELSE 0
+          /\ UNCHANGED <<cfg, open, lat, ctb, cte, cub, cue, ob>>
+
 TOpened == IsEv("opened") /\ Rec.id \notin DOMAIN open /\ open' = Put(open, Rec.id, <<>>)
            /\ UNCHANGED <<cfg, lat, rrPrev, ctb, cte, cub, cue, ob>>
 TClose == IsEv("close") /\ Rec.id \in DOMAIN open /\ open' = Drop1(open, Rec.id)
@@ -61,7 +73,7 @@ TObs == IsEv("obs") /\ Rec.o \in DOMAIN ob
         /\ ob[Rec.o].te - cub <= Rec.n /\ Rec.n <= ctb - ob[Rec.o].ue /\ Rec.n >= 0
         /\ UNCHANGED tv
 
-TNext == (TReset \/ TLat \/ TAttempt \/ TOpened \/ TClose \/ TCount \/ TTb \/ TTe \/ TUb \/ TUe \/ TOBegin \/ TObs)
+TNext == (TReset \/ TLat \/ TAttempt \/ TAbort \/ TOpened \/ TClose \/ TCount \/ TTb \/ TTe \/ TUb \/ TUe \/ TOBegin \/ TObs)
          /\ UNCHANGED vars
 TSpec == TInit /\ [][TNext]_tvars
 =============================================================================
